@@ -26,6 +26,8 @@ type concOp struct {
 	readFrom int // number of commits before the read was issued (its snapshot lies between the two)
 	readOK   bool
 	readRes  any
+	// the read fits one of the serial states up to a recorded finding
+	readKnown *Violation
 }
 
 type ConcRun struct {
@@ -482,7 +484,15 @@ func RunConcScenario(sc *Scenario) (vd *Verdict) {
 			if v == nil {
 				co.readOK = true
 			} else if co.readAt == upto {
+				if co.readKnown != nil && !IsKnown(v) {
+					// at one of the states the read is what a recorded finding explains
+					return co.readKnown
+				}
 				return v
+			} else if IsKnown(v) && co.readKnown == nil {
+				co.readKnown = v
+			} else if traceOut {
+				fmt.Fprintf(os.Stderr, "EV read of task %d (commits %d..%d) does not fit the state after %d commits: %s\n", co.task, co.readFrom, co.readAt, upto, v.Message)
 			}
 		}
 		return nil
@@ -738,7 +748,7 @@ func (r *ConcRun) checkRead(m *Model, co *concOp) *Violation {
 		}
 		fr := r.readers[co.task]
 		if fr == nil {
-			fr = &FeedReader{DS: rd.ds, Latest: rd.latest, TokenIsIndex: true}
+			fr = &FeedReader{DS: rd.ds, Latest: rd.latest, TokenIsIndex: true, Compacting: prop == "C12"}
 			r.readers[co.task] = fr
 		}
 		fr.Token = rd.token
